@@ -524,8 +524,20 @@ func (e *env) runEnc(id, tier string) {
 		}
 		try(append(append([]byte(nil), orig...), 0))
 		try(append(append([]byte(nil), orig...), orig...))
-		// swap with another key's ciphertext (valid AEAD output of a different value is a different value: allowed to decrypt,
-		// but it must then be that other value in full — reported, judged by the driver)
+		// substitution: the authentic ciphertext that was written for ANOTHER key, as the bytes of this key's
+		// file (a multi-byte modification that needs no key): it must be rejected like any other alteration
+		{
+			pre := e.readAllFiles()
+			k2 := "tamper-other-key"
+			if err := conn.Set(k2, []byte("the value that belongs to another key, 0123456789")); err == nil {
+				for f2, b2 := range e.readAllFiles() {
+					if _, ok := pre[f2]; !ok && f2 != target {
+						try(b2)
+					}
+				}
+				_ = conn.Delete(k2)
+			}
+		}
 		_ = os.WriteFile(filepath.Join(root, target), orig, 0o644)
 		// large values: truncation at every length of a structural kind (block, segment and record
 		// boundaries of any power-of-two size with the usual nonce/tag overheads), a random sample of
